@@ -10,7 +10,7 @@ package main
 //	agg num     <keep> <rev> <hist> <qs>     MatchNumerical (bit-exact float64 results) + Analyze
 //	split <delim> <s> <n>                    stringSplitter.Splitter: n calls of Next with Done after each
 //	acc <opt> <rev> <ops>                    AccumulatingGroup (see c07acc.go)
-//	sorted <kind> <sorter> <count> <hist>    ItemsSortedBy / ItemsSorted / OrderedColumns+OrderedRows (see c07sorted.go)
+//	sorted counter|subkey|table ...          counted / sorted accessors (see c07sorted.go)
 //
 // <hist> is a hex list of raw sample strings.  Everything that comes out of a Go map is sorted.
 // Every case is executed several times so that a dependence on Go's randomised map iteration
@@ -145,6 +145,8 @@ func c07RunOnce(f []string) string {
 	switch f[0] {
 	case "acc":
 		return c07AccRunOnce(f)
+	case "sorted":
+		return c07SortedRunOnce(f)
 	case "split":
 		n, _ := strconv.Atoi(f[3])
 		sp := stringSplitter.Splitter{S: string(UnHex(f[2])), Delim: string(UnHex(f[1]))}
@@ -204,8 +206,8 @@ func c07Run(f []string) (res string) {
 	if len(f) > 1 && f[1] == "table" {
 		reps = 5 // Go randomises map iteration per range statement
 	}
-	if f[0] == "acc" {
-		reps = 2 // Groups() ranges over a map before it sorts
+	if f[0] == "acc" || f[0] == "sorted" {
+		reps = 2 // the accessor ranges over a map before it sorts
 	}
 	for i := 0; i < reps; i++ {
 		if again := c07RunOnce(f); again != first {
@@ -415,6 +417,7 @@ func c07Gen(r *Rand, tier string) []string {
 	}
 	var out []string
 	out = append(out, c07AccGen(r, tier)...)
+	out = append(out, c07SortedGen(r, tier)...)
 	for i := 0; i < n; i++ {
 		out = append(out, "agg counter "+HexListS(c07Hist(r, "\x00", 1)))
 		out = append(out, "agg subkey "+HexListS(c07Hist(r, "\x00", 2)))
@@ -481,6 +484,13 @@ func c07Stats(cases []string) map[string]int {
 		f := strings.Fields(c)
 		if f[0] == "acc" {
 			c07AccStats(c, st)
+			continue
+		}
+		if f[0] == "sorted" {
+			st["kind.sorted."+f[1]]++
+			if f[1] == "counter" && strings.HasPrefix(f[3], "-") {
+				st["sorted.negativeCount"]++
+			}
 			continue
 		}
 		if f[0] == "split" {
